@@ -548,7 +548,7 @@ pub fn subs() -> Vec<Box<dyn SubCheck>> {
 pub fn property() -> Property {
     Property {
         id: "C20",
-        rule: "udp_generated: 1-4 clients x 1-4 streams of stream::testing::{Client,Server} in a seeded bach simulation; per stream a request/response script (sizes 0..2 MiB biased to 0/1, the MTU region, 14720 = initial flow window, 64 KiB; write chunkings, read buffers 1..64 KiB, pauses, shutdown or drop, early reader drop, sequential or full-duplex on either side), MTU 1250..32000 per endpoint, own fault allocator with a decision per datagram (pass/drop/duplicate/delay 0..20 ms) per direction plus blackhole phases; tapes are a finite prefix (85%) or repeat for ever (15%, integrity only). peer_loss: same scripts, at a generated instant the network blackholes for ever (both or one direction) / all server tasks are dropped / the server forgets the path secrets. udp_single_fault_enum: for 3 (quick) / 5 (thorough) fixed exchanges every datagram index k of the fault-free run x {drop, duplicate, delay 2 ms, delay 20 ms} (complete), each case run twice to confirm determinism. udp_dialog_retx: 1-2 clients x 1-3 streams, 90% of them dialogues on an open stream (the client writes the first part of the request - nothing / a part / all of it - WITHOUT finishing, waits for the complete response, writes the rest and only then finishes; the server reads exactly that first part, answers, then reads to the end), faults addressed by packet class and ordinal from the cleartext headers: 1-3 groups 'the k-th stream-space packet of a direction is lost, and so are (or: are delayed/duplicated) the first 0-3 recovery-space packets that carry its bytes again', 10% plus a lost control datagram of the other direction, 20% on top of a light tape; the liveness oracle of the finite-prefix family applies (all faults hit single datagrams). udp_retx_pair_enum: for 2 (quick) / 4 (thorough) fixed dialogues every stream-space packet k of either direction of the fault-free run x {its first retransmission lost too, its first two} (complete). tcp_generated: the same scripts over loopback TCP under tokio, no fault injection. tcp_cut_enum / tcp_cut_generated: loopback TCP through an in-process forwarder that parses the record headers of one direction (request or response), lets a chosen number of complete records and a chosen part of the next one (nothing / 1 byte / inside the header / exactly the header / inside the payload / all but one byte) through and then closes both sockets or sends FIN to the reader only; the writer ends the stream inside its last write (write_all_from_fin: every record of it announces the final offset) or by shutdown(); enum: 3 (quick) / 4 (thorough) sizes (last write of 1, 2, 3, 7 records) x direction x finish mode x close mode x every record of the last write x 5 parts + clean (complete); generated: lead writes 0..40 kB in generated chunks, last write 0..300 kB biased to multiples of the 16 KiB record, read buffers 1..64 KiB. Non-trivial (udp_generated, peer_loss): at least one stream-space datagram and one control (ACK) datagram were lost and one datagram was duplicated or overtaken and a transfer exceeded the initial flow window of 14720 bytes, or the peer-loss event was applied while scripts were running; enum: the fault hit a datagram of the run; udp_dialog_retx / udp_retx_pair_enum: a stream-space packet and a recovery-space packet carrying its bytes again were both lost (and the case has a dialogue); tcp: a transfer exceeded the initial flow window; tcp_cut_*: the connection was cut while a reader was reading the cut direction. Distinct = distinct generated case.",
+        rule: "udp_generated: 1-4 clients x 1-4 streams of stream::testing::{Client,Server} in a seeded bach simulation; per stream a request/response script (sizes 0..2 MiB biased to 0/1, the MTU region, 14720 = initial flow window, 64 KiB; write chunkings, read buffers 1..64 KiB, pauses, shutdown or drop, early reader drop, sequential or full-duplex on either side), MTU 1250..32000 per endpoint, own fault allocator with a decision per datagram (pass/drop/duplicate/delay 0..20 ms) per direction plus blackhole phases; tapes are a finite prefix (85%) or repeat for ever (15%, integrity only). peer_loss: same scripts, at a generated instant the network blackholes for ever (both or one direction) / all server tasks are dropped / the server forgets the path secrets. udp_single_fault_enum: for 3 (quick) / 5 (thorough) fixed exchanges every datagram index k of the fault-free run x {drop, duplicate, delay 2 ms, delay 20 ms} (complete), each case run twice to confirm determinism. udp_drop_then_silence_enum: the first fixed exchange with datagram k lost (every k; every second k in the quick tier) and the network gone for ever (both directions) from an instant of a 24-point geometric grid 50 us .. 50 ms (complete); the peer-loss oracle applies: whatever is pending - a reader that knows the final size and still has a gap, a writer waiting for the last acknowledgement - must fail within the idle timeout. udp_dialog_retx: 1-2 clients x 1-3 streams, 90% of them dialogues on an open stream (the client writes the first part of the request - nothing / a part / all of it - WITHOUT finishing, waits for the complete response, writes the rest and only then finishes; the server reads exactly that first part, answers, then reads to the end), faults addressed by packet class and ordinal from the cleartext headers: 1-3 groups 'the k-th stream-space packet of a direction is lost, and so are (or: are delayed/duplicated) the first 0-3 recovery-space packets that carry its bytes again', 10% plus a lost control datagram of the other direction, 20% on top of a light tape; the liveness oracle of the finite-prefix family applies (all faults hit single datagrams). udp_retx_pair_enum: for 2 (quick) / 4 (thorough) fixed dialogues every stream-space packet k of either direction of the fault-free run x {its first retransmission lost too, its first two} (complete). tcp_generated: the same scripts over loopback TCP under tokio, no fault injection. tcp_cut_enum / tcp_cut_generated: loopback TCP through an in-process forwarder that parses the record headers of one direction (request or response), lets a chosen number of complete records and a chosen part of the next one (nothing / 1 byte / inside the header / exactly the header / inside the payload / all but one byte) through and then closes both sockets or sends FIN to the reader only; the writer ends the stream inside its last write (write_all_from_fin: every record of it announces the final offset) or by shutdown(); enum: 3 (quick) / 4 (thorough) sizes (last write of 1, 2, 3, 7 records) x direction x finish mode x close mode x every record of the last write x 5 parts + clean (complete); generated: lead writes 0..40 kB in generated chunks, last write 0..300 kB biased to multiples of the 16 KiB record, read buffers 1..64 KiB. Non-trivial (udp_generated, peer_loss): at least one stream-space datagram and one control (ACK) datagram were lost and one datagram was duplicated or overtaken and a transfer exceeded the initial flow window of 14720 bytes, or the peer-loss event was applied while scripts were running; enum: the fault hit a datagram of the run; udp_dialog_retx / udp_retx_pair_enum: a stream-space packet and a recovery-space packet carrying its bytes again were both lost (and the case has a dialogue); tcp: a transfer exceeded the initial flow window; tcp_cut_*: the connection was cut while a reader was reading the cut direction. Distinct = distinct generated case.",
         assumptions: &[
             "bach 0.1.2 discrete-event runtime, its UDP socket model and virtual clock; the harness's fault allocator is a copy of bach's Fixed::for_udp with a per-datagram decision",
             "stream::testing::{Client, Server} builders of s2n-quic-dc (in-memory path secret exchange instead of the real handshake; TEST_APPLICATION_PARAMS: idle timeout 30 s, initial peer window 14720)",
